@@ -17,9 +17,10 @@ A_CONST = 4 * CAP + 1 * MiB
 #   library: max over element types of size_of T / min wire bytes = TxIn 64 / 2 = 32 (Gen input: tag + 1-byte varint),
 #            SubField 32 / 2 with doubling growth = 32; x2 because `parsed_ops` holds the parsed extra twice
 #   harness: the decoded input (1), serialised copy (<= 2 with doubling), hex / Display strings (<= 2 + 5)
-B_PARSED = 96         # parsed_ops / psyn / reser: objects + serialisations + Display strings
-B_DUMP = 640          # dec / decs / extra_parse / *_dec: the harness dumps one String token per parsed element
-B_TEXT = 16           # text and fixed-size parsers: nothing but copies of the input
+B_PARSED = 96         # parsed_ops / parsed_scan / psyn / reser: objects + serialisations + Display strings (observed <= 53)
+B_DUMP = 192          # dec / decs / extra_parse / *_dec: the harness dumps one String token per parsed element (observed <= 70)
+B_TEXT = 32           # text and fixed-size parsers: nothing but copies / re-encodings of the input (observed <= 20: b58_enc)
+A_TEXT = 64 * 1024    # ... and no capped pre-allocation at all
 DUMP_OPS = {"dec", "decs", "extra_parse", "subfield_dec", "subfield_decs", "varint_dec", "addr_dec", "sk_dec", "pk_dec"}
 PARSED_OPS = {"parsed_ops", "psyn", "reser", "parsed_scan"}
 
@@ -194,7 +195,7 @@ class C04(Check):
     pid = "C04"
     profiles = ("release", "dev")
     peak = True
-    evalA_sample = 60
+    evalA_sample = 400
     impl_timeout = 120        # seconds per shard of <= 2000 cases (a shard of the unchanged tree takes < 5 s)
     rule = ("adversarial stream, both cargo profiles, counting allocator: (1) every LENGTH position (vector length varints, the u32 "
             "bulletproof count) of every repository hex literal and of generated well-formed tx / blocks (all 7 RingCT types, v1, Gen/ToKey) "
@@ -632,7 +633,7 @@ class C04(Check):
             return A_CONST + B_PARSED * n
         if op in DUMP_OPS:
             return A_CONST + B_DUMP * n
-        return 1 * MiB + B_TEXT * n
+        return A_TEXT + B_TEXT * n
 
     def oracle(self, case, impl, ctx):
         core, _, pk = impl.partition(" peak=")
@@ -677,12 +678,11 @@ class C04(Check):
         return a[0] in ("parsed_ops", "parsed_scan", "reser", "decs", "hexparse", "denom", "amt_parse", "varint_dec", "atype") and len(line) < 1500
 
     def extra_coverage(self, cases, impl, model):
-        out = {"constants": {"A_bytes": A_CONST, "A_text_ops_bytes": 1 * MiB, "B_parsed_ops_reser": B_PARSED, "B_dump_ops": B_DUMP, "B_text_ops": B_TEXT,
+        out = {"constants": {"A_bytes": A_CONST, "A_text_ops_bytes": A_TEXT, "B_parsed_ops_reser": B_PARSED, "B_dump_ops": B_DUMP, "B_text_ops": B_TEXT,
                              "cap_bytes": CAP, "size_table": getattr(self, "sz", "?")},
                "seeds_corpus_generated": getattr(self, "n_seeds", None), "length_positions_replaced": getattr(self, "n_len_pos", None)}
         for prof in self.profiles:
             stats = {}
-            worst = {}
             skipped = 0
             for c, r, m in zip(cases, impl[prof], model):
                 if m == "SKIP":
@@ -693,20 +693,28 @@ class C04(Check):
                 op = c.line.split(" ", 1)[0]
                 grp = "parsed" if op in PARSED_OPS else "dump" if op in DUMP_OPS else "text"
                 n, peak = self.input_len(c.line), int(pk)
-                st = stats.setdefault(grp, {"cases": 0, "max_peak": 0, "max_peak_input": 0, "max_ratio_over_4KiB": 0.0,
-                                            "max_excess_over_B_n": 0, "peak_over_32MiB": 0, "ratio_hist": {}})
+                st = stats.setdefault(grp, {"cases": 0, "max_peak_bytes": 0, "input_len_at_max_peak": 0,
+                                            "A_observed_max_peak_minus_B_n": 0, "cases_with_peak_over_32MiB": 0,
+                                            "max_peak_with_input_under_4KiB": 0,
+                                            "linear_part_max_ratio": 0.0, "linear_part_ratio_hist": {}, "linear_part_worst_case": ""})
                 st["cases"] += 1
-                if peak > st["max_peak"]:
-                    st["max_peak"], st["max_peak_input"] = peak, n
+                if peak > st["max_peak_bytes"]:
+                    st["max_peak_bytes"], st["input_len_at_max_peak"] = peak, n
                 B = B_PARSED if grp == "parsed" else B_DUMP if grp == "dump" else B_TEXT
-                st["max_excess_over_B_n"] = max(st["max_excess_over_B_n"], peak - B * n)
+                st["A_observed_max_peak_minus_B_n"] = max(st["A_observed_max_peak_minus_B_n"], peak - B * n)
                 if peak > CAP:
-                    st["peak_over_32MiB"] += 1
-                if n >= 4096:
+                    st["cases_with_peak_over_32MiB"] += 1
+                if n < 4096:
+                    st["max_peak_with_input_under_4KiB"] = max(st["max_peak_with_input_under_4KiB"], peak)
+                elif c.cls.startswith(("big-", "scan-owned", "text-")):
+                    # peak / |input| over the classes WITHOUT adversarial declared lengths (long runs of tiny elements, filled
+                    # megabytes, big extras, long texts; the generated / corpus objects carry random extras whose sub-fields
+                    # declare lengths up to the cap, so they are not counted here): the B of the bound
                     ratio = peak / n
-                    st["max_ratio_over_4KiB"] = round(max(st["max_ratio_over_4KiB"], ratio), 2)
-                    bucket = "<2" if ratio < 2 else "<8" if ratio < 8 else "<32" if ratio < 32 else "<96" if ratio < 96 else "<640" if ratio < 640 else ">=640"
-                    st["ratio_hist"][bucket] = st["ratio_hist"].get(bucket, 0) + 1
+                    if ratio > st["linear_part_max_ratio"]:
+                        st["linear_part_max_ratio"], st["linear_part_worst_case"] = round(ratio, 2), c.cls + ": " + c.line[:90]
+                    bucket = "<2" if ratio < 2 else "<8" if ratio < 8 else "<32" if ratio < 32 else "<96" if ratio < 96 else "<192" if ratio < 192 else ">=192"
+                    st["linear_part_ratio_hist"][bucket] = st["linear_part_ratio_hist"].get(bucket, 0) + 1
             out["peak_" + prof] = stats
             out["model_skipped_big_inputs"] = skipped
         return out
